@@ -23,7 +23,9 @@
 #include <cstring>
 #include <map>
 #include <set>
+#include <stdexcept>
 #include <string>
+#include <sys/wait.h>
 #include <unistd.h>
 #include <unordered_set>
 #include <vector>
@@ -247,9 +249,178 @@ namespace sim
             sigaction(s, &sa, nullptr);
     }
 
+    // ---------- pristine execution ----------
+    // A worker process executes thousands of plans back to back, so any once-per-process state inside the code under test (a function-local
+    // static cache, say) is initialised by the first plan and then stale for all later ones - something no real process, which boots once, can
+    // observe. Harnesses whose simulated environment includes "process start" (C15) opt in to confirming, shrinking and reporting every
+    // violation candidate with executions in pristine processes: a zygote forked before any plan ran forks one child per requested plan.
+    struct PristineResult
+    {
+        bool ok = false; // the request was served (false: zygote gone)
+        bool crashed = false;
+        int signal = 0;
+        Outcome o;
+        std::string hash;
+        std::vector<std::string> log;
+    };
+    inline bool read_all(int fd, void* buf, size_t n)
+    {
+        char* p = (char*)buf;
+        while (n)
+        {
+            ssize_t r = read(fd, p, n);
+            if (r <= 0)
+                return false;
+            p += r;
+            n -= (size_t)r;
+        }
+        return true;
+    }
+    inline bool write_all(int fd, const void* buf, size_t n)
+    {
+        const char* p = (const char*)buf;
+        while (n)
+        {
+            ssize_t r = write(fd, p, n);
+            if (r <= 0)
+                return false;
+            p += r;
+            n -= (size_t)r;
+        }
+        return true;
+    }
+    inline bool send_msg(int fd, const std::string& s)
+    {
+        uint32_t len = (uint32_t)s.size();
+        return write_all(fd, &len, 4) && write_all(fd, s.data(), s.size());
+    }
+    inline bool recv_msg(int fd, std::string& s)
+    {
+        uint32_t len = 0;
+        if (!read_all(fd, &len, 4))
+            return false;
+        s.resize(len);
+        return len == 0 || read_all(fd, &s[0], len);
+    }
+    template <class H>
+    struct Zygote
+    {
+        int to_fd = -1, from_fd = -1;
+        pid_t pid = -1;
+        uint64_t served = 0;
+        bool start(H& h)
+        {
+            int a[2], b[2];
+            if (pipe(a) != 0 || pipe(b) != 0)
+                return false;
+            fflush(stdout);
+            pid = fork();
+            if (pid < 0)
+                return false;
+            if (pid == 0)
+            {
+                close(a[1]);
+                close(b[0]);
+                serve(h, a[0], b[1]);
+                _exit(0);
+            }
+            close(a[0]);
+            close(b[1]);
+            to_fd = a[1];
+            from_fd = b[0];
+            return true;
+        }
+        static void serve(H& h, int in, int out)
+        {
+            std::string text;
+            while (recv_msg(in, text))
+            {
+                int c[2];
+                if (pipe(c) != 0)
+                    break;
+                pid_t g = fork();
+                if (g == 0)
+                {
+                    close(c[0]);
+                    std::string reply;
+                    try
+                    {
+                        typename H::Plan plan = h.from_json(json::parse(text));
+                        Log l;
+                        l.keep_text = true;
+                        Outcome o = h.execute(plan, l);
+                        json::Value r = json::Value::object();
+                        json::Value cl = json::Value::array(), dt = json::Value::array(), lg = json::Value::array();
+                        for (auto& x : o.classes)
+                            cl.push(x);
+                        for (auto& x : o.details)
+                            dt.push(x);
+                        for (auto& x : l.text)
+                            lg.push(x);
+                        r.set("classes", cl).set("details", dt).set("hash", json::hex64(l.h)).set("log", lg).set("ops", (unsigned long long)o.ops_executed);
+                        reply = json::dump(r);
+                    }
+                    catch (const std::exception& e)
+                    {
+                        reply = std::string("{\"error\":") + json::dump(json::Value(std::string(e.what()))) + "}";
+                    }
+                    send_msg(c[1], reply);
+                    _exit(0);
+                }
+                close(c[1]);
+                std::string reply;
+                bool got = recv_msg(c[0], reply);
+                close(c[0]);
+                int st = 0;
+                waitpid(g, &st, 0);
+                if (!got || WIFSIGNALED(st))
+                    reply = "{\"crash\":" + std::to_string(WIFSIGNALED(st) ? WTERMSIG(st) : 0) + "}";
+                if (!send_msg(out, reply))
+                    break;
+            }
+        }
+        PristineResult run(H& h, const typename H::Plan& plan)
+        {
+            PristineResult r;
+            std::string reply;
+            if (to_fd < 0 || !send_msg(to_fd, json::dump(h.to_json(plan))) || !recv_msg(from_fd, reply))
+                return r;
+            ++served;
+            json::Value v = json::parse(reply);
+            if (v.has("error"))
+                return r;
+            r.ok = true;
+            if (v.has("crash"))
+            {
+                r.crashed = true;
+                r.signal = (int)v.at("crash").as_u64();
+                r.o.violate(std::string(H::id()) + "/crash(signal " + std::to_string(r.signal) + ")", "the process under test died while executing the plan");
+                return r;
+            }
+            for (size_t i = 0; i < v.at("classes").a.size(); ++i)
+                r.o.violate(v.at("classes").a[i].as_string(), v.at("details").a[i].as_string());
+            r.o.ops_executed = v.get_u64("ops", 0);
+            r.hash = v.get_str("hash", "");
+            for (auto& x : v.at("log").a)
+                r.log.push_back(x.as_string());
+            return r;
+        }
+        void stop()
+        {
+            if (to_fd >= 0)
+                close(to_fd);
+            if (from_fd >= 0)
+                close(from_fd);
+            to_fd = from_fd = -1;
+            if (pid > 0)
+                waitpid(pid, nullptr, 0);
+            pid = -1;
+        }
+    };
+
     // ---------- shrinking: ddmin over ops, then greedy one-step simplifications ----------
     template <class H>
-    typename H::Plan shrink(H& h, const typename H::Plan& plan0, const std::string& target, uint64_t& executions, uint64_t budget = 3000)
+    typename H::Plan shrink(H& h, const typename H::Plan& plan0, const std::string& target, uint64_t& executions, uint64_t budget = 3000, Zygote<H>* zy = nullptr)
     {
         using Plan = typename H::Plan;
         auto fails = [&](const Plan& p) -> bool
@@ -257,6 +428,11 @@ namespace sim
             if (shrink_guard().crashed)
                 return false;
             ++executions;
+            if (zy)
+            {
+                PristineResult r = zy->run(h, p);
+                return r.ok && r.o.has(target);
+            }
             if (sigsetjmp(shrink_guard().jb, 1) != 0)
                 return false; // the candidate crashed the process under test: not the class we are minimising
             shrink_guard().armed = 1;
@@ -382,6 +558,8 @@ namespace sim
         bool want_hashes = false;
         uint64_t runs = 0, ops = 0, events = 0, violations = 0, nondeterministic = 0;
         std::map<std::string, uint64_t> per_class;
+        std::map<std::string, uint64_t> artifacts; // candidates that pristine processes did not confirm (state carried between simulated lifetimes)
+        Zygote<H>* zygote = nullptr;
         json::Value sample_list = json::Value::array();
 
         explicit Worker(H& hh)
@@ -414,25 +592,63 @@ namespace sim
                 uint64_t seen = per_class[cls]++;
                 if (seen >= max_report)
                     continue;
-                // gate (a): rebuild the plan from its source and execute again in-process -> same hash, same class
-                typename H::Plan plan2 = regen();
-                Log l2;
-                Outcome o2 = h.execute(plan2, l2);
-                bool det = (l2.h == l.h) && o2.has(cls);
-                if (!det)
-                    ++nondeterministic;
-                crash_state().phase = 3;
+                typename H::Plan small = plan;
+                bool det = false;
+                bool poisoned = false;
                 uint64_t execs = 0;
-                typename H::Plan small = det ? shrink(h, plan, cls, execs, h.shrink_budget()) : plan;
-                crash_state().phase = 0;
-                const bool poisoned = shrink_guard().crashed != 0;
                 Log l3;
                 l3.keep_text = true;
                 Outcome o3;
-                if (!poisoned)
-                    o3 = h.execute(small, l3);
+                if (zygote)
+                {
+                    // pristine-process path: confirm, shrink and observe in processes that never executed another plan
+                    auto drop = [&]()
+                    {
+                        ++artifacts[cls];
+                        if (--per_class[cls] == 0)
+                            per_class.erase(cls);
+                    };
+                    PristineResult p1 = zygote->run(h, regen());
+                    if (!p1.ok)
+                        throw std::runtime_error("pristine executor is gone");
+                    if (!p1.o.has(cls))
+                    {
+                        drop(); // seen only in a process that had already lived other simulated lifetimes
+                        continue;
+                    }
+                    PristineResult p2 = zygote->run(h, plan);
+                    det = p2.ok && p2.hash == p1.hash && p2.o.has(cls);
+                    if (!det)
+                        ++nondeterministic;
+                    if (det)
+                        small = shrink(h, plan, cls, execs, h.shrink_budget(), zygote);
+                    if (det && h.spans_several_lifetimes(small))
+                    {
+                        drop(); // needs state carried across a simulated process start: not observable by any real process
+                        continue;
+                    }
+                    PristineResult p3 = zygote->run(h, small);
+                    o3 = p3.o;
+                    l3.text = p3.log;
+                }
                 else
-                    o3.violate(cls, o.details[ci] + " (a shrink candidate crashed the process under test; minimisation stopped early)");
+                {
+                    // gate (a): rebuild the plan from its source and execute again in-process -> same hash, same class
+                    typename H::Plan plan2 = regen();
+                    Log l2;
+                    Outcome o2 = h.execute(plan2, l2);
+                    det = (l2.h == l.h) && o2.has(cls);
+                    if (!det)
+                        ++nondeterministic;
+                    crash_state().phase = 3;
+                    small = det ? shrink(h, plan, cls, execs, h.shrink_budget()) : plan;
+                    crash_state().phase = 0;
+                    poisoned = shrink_guard().crashed != 0;
+                    if (!poisoned)
+                        o3 = h.execute(small, l3);
+                    else
+                        o3.violate(cls, o.details[ci] + " (a shrink candidate crashed the process under test; minimisation stopped early)");
+                }
                 json::Value v = json::Value::object();
                 v.set("property", H::id());
                 v.set("violation_class", cls);
@@ -484,6 +700,10 @@ namespace sim
             for (auto& kv : per_class)
                 pc.set(kv.first, (unsigned long long)kv.second);
             rep.set("per_class", pc);
+            json::Value ar = json::Value::object();
+            for (auto& kv : artifacts)
+                ar.set(kv.first, (unsigned long long)kv.second);
+            rep.set("artifacts", ar);
             rep.set("samples", sample_list);
             json::Value ds = json::Value::object();
             for (DistinctSet* d : distinct_registry())
@@ -565,6 +785,10 @@ namespace sim
         {
             H h;
             h.configure(args.params);
+            Zygote<H> zygote;
+            const bool pristine = h.pristine_confirmation() && args.cmd != "replay" && args.cmd != "gen";
+            if (pristine && !zygote.start(h))
+                throw std::runtime_error("cannot start the pristine executor");
             h.startup_selftest();
             if (args.cmd == "replay")
             {
@@ -620,6 +844,8 @@ namespace sim
             w.samples_wanted = args.samples;
             w.want_hashes = args.want_hashes;
             w.distinct_prefix_for_restart = args.distinct_prefix;
+            if (pristine)
+                w.zygote = &zygote;
             if (args.cmd == "run")
             {
                 for (uint64_t r = args.first + args.offset; r < args.first + args.count; r += args.stride)
@@ -635,11 +861,13 @@ namespace sim
                                   return h.generate(rng2); });
                 }
                 w.finish(args.distinct_prefix);
+                zygote.stop();
                 return 0;
             }
             if (h.custom_command(args, w))
             {
                 w.finish(args.distinct_prefix);
+                zygote.stop();
                 return 0;
             }
             fprintf(stderr, "usage: run|replay|gen\n");
@@ -660,6 +888,9 @@ namespace sim
         void post_install() {} // called after the generic crash handlers are installed (a harness may put its own fault handler on top)
         void extra_report(json::Value&) {}
         uint64_t shrink_budget() const { return 3000; }
+        bool pristine_confirmation() const { return false; } // confirm/shrink/report violation candidates in pristine processes (see Zygote)
+        template <class P>
+        bool spans_several_lifetimes(const P&) const { return false; }
         template <class W>
         bool custom_command(const Args&, W&) { return false; }
     };
